@@ -32,23 +32,6 @@ pub fn stub_fmt_write(
     Ok(())
 }
 
-/// Family E only: in those shapes the only parameter position faces an empty URI segment, so
-/// `unapply_parts` must return before it records a binding. Reaching `HashMap::insert` IS the
-/// violation (and std's real `insert` never finishes under CBMC).
-pub fn stub_insert_unreachable<K, V, S, A>(
-    _m: &mut HashMap<K, V, S, A>,
-    _k: K,
-    _v: V,
-) -> Option<V>
-where
-    K: Eq + std::hash::Hash,
-    S: std::hash::BuildHasher,
-    A: std::alloc::Allocator,
-{
-    kani::assert(false, "C18:parameter_never_binds_empty[insert reached]");
-    None
-}
-
 /// `true` under Kani (where `core::fmt::write` is the stub above), `false` in a native replay.
 fn under_solver() -> bool {
     let mut s = String::new();
